@@ -70,12 +70,12 @@ Format/Uvl.vos Format/Uvl.vok Format/Uvl.required_vos: Format/Uvl.v Base/Result.
 Model/Metrics.vo Model/Metrics.glob Model/Metrics.v.beautified Model/Metrics.required_vo: Model/Metrics.v Base/Result.vo Base/Str.vo Base/PyFloat.vo Base/AstOp.vo Model/Ast.vo Model/FM.vo Model/Ctc.vo Model/Queries.vo Model/Ops.vo Model/EqHash.vo Gen/Tables_metrics.vo
 Model/Metrics.vio: Model/Metrics.v Base/Result.vio Base/Str.vio Base/PyFloat.vio Base/AstOp.vio Model/Ast.vio Model/FM.vio Model/Ctc.vio Model/Queries.vio Model/Ops.vio Model/EqHash.vio Gen/Tables_metrics.vio
 Model/Metrics.vos Model/Metrics.vok Model/Metrics.required_vos: Model/Metrics.v Base/Result.vos Base/Str.vos Base/PyFloat.vos Base/AstOp.vos Model/Ast.vos Model/FM.vos Model/Ctc.vos Model/Queries.vos Model/Ops.vos Model/EqHash.vos Gen/Tables_metrics.vos
-Extract/Codec.vo Extract/Codec.glob Extract/Codec.v.beautified Extract/Codec.required_vo: Extract/Codec.v Base/Result.vo Base/Str.vo Base/Sexp.vo Base/AstOp.vo Model/Ast.vo Model/FM.vo Model/PFM.vo Format/Xml.vo
-Extract/Codec.vio: Extract/Codec.v Base/Result.vio Base/Str.vio Base/Sexp.vio Base/AstOp.vio Model/Ast.vio Model/FM.vio Model/PFM.vio Format/Xml.vio
-Extract/Codec.vos Extract/Codec.vok Extract/Codec.required_vos: Extract/Codec.v Base/Result.vos Base/Str.vos Base/Sexp.vos Base/AstOp.vos Model/Ast.vos Model/FM.vos Model/PFM.vos Format/Xml.vos
-Extract/Driver.vo Extract/Driver.glob Extract/Driver.v.beautified Extract/Driver.required_vo: Extract/Driver.v Base/Result.vo Base/Str.vo Base/Sexp.vo Base/AstOp.vo Model/Ast.vo Model/FM.vo Model/Ctc.vo Model/Queries.vo Model/Sem.vo Model/Ops.vo Model/EqHash.vo Model/PFM.vo Format/Json.vo Format/Glencoe.vo Format/Xml.vo Model/Metrics.vo Extract/Codec.vo
-Extract/Driver.vio: Extract/Driver.v Base/Result.vio Base/Str.vio Base/Sexp.vio Base/AstOp.vio Model/Ast.vio Model/FM.vio Model/Ctc.vio Model/Queries.vio Model/Sem.vio Model/Ops.vio Model/EqHash.vio Model/PFM.vio Format/Json.vio Format/Glencoe.vio Format/Xml.vio Model/Metrics.vio Extract/Codec.vio
-Extract/Driver.vos Extract/Driver.vok Extract/Driver.required_vos: Extract/Driver.v Base/Result.vos Base/Str.vos Base/Sexp.vos Base/AstOp.vos Model/Ast.vos Model/FM.vos Model/Ctc.vos Model/Queries.vos Model/Sem.vos Model/Ops.vos Model/EqHash.vos Model/PFM.vos Format/Json.vos Format/Glencoe.vos Format/Xml.vos Model/Metrics.vos Extract/Codec.vos
+Extract/Codec.vo Extract/Codec.glob Extract/Codec.v.beautified Extract/Codec.required_vo: Extract/Codec.v Base/Result.vo Base/Str.vo Base/Sexp.vo Base/AstOp.vo Model/Ast.vo Model/FM.vo Model/PFM.vo Format/Xml.vo Format/Uvl.vo
+Extract/Codec.vio: Extract/Codec.v Base/Result.vio Base/Str.vio Base/Sexp.vio Base/AstOp.vio Model/Ast.vio Model/FM.vio Model/PFM.vio Format/Xml.vio Format/Uvl.vio
+Extract/Codec.vos Extract/Codec.vok Extract/Codec.required_vos: Extract/Codec.v Base/Result.vos Base/Str.vos Base/Sexp.vos Base/AstOp.vos Model/Ast.vos Model/FM.vos Model/PFM.vos Format/Xml.vos Format/Uvl.vos
+Extract/Driver.vo Extract/Driver.glob Extract/Driver.v.beautified Extract/Driver.required_vo: Extract/Driver.v Base/Result.vo Base/Str.vo Base/Sexp.vo Base/AstOp.vo Model/Ast.vo Model/FM.vo Model/Ctc.vo Model/Queries.vo Model/Sem.vo Model/Ops.vo Model/EqHash.vo Model/PFM.vo Format/Json.vo Format/Glencoe.vo Format/Xml.vo Format/Uvl.vo Model/Metrics.vo Extract/Codec.vo
+Extract/Driver.vio: Extract/Driver.v Base/Result.vio Base/Str.vio Base/Sexp.vio Base/AstOp.vio Model/Ast.vio Model/FM.vio Model/Ctc.vio Model/Queries.vio Model/Sem.vio Model/Ops.vio Model/EqHash.vio Model/PFM.vio Format/Json.vio Format/Glencoe.vio Format/Xml.vio Format/Uvl.vio Model/Metrics.vio Extract/Codec.vio
+Extract/Driver.vos Extract/Driver.vok Extract/Driver.required_vos: Extract/Driver.v Base/Result.vos Base/Str.vos Base/Sexp.vos Base/AstOp.vos Model/Ast.vos Model/FM.vos Model/Ctc.vos Model/Queries.vos Model/Sem.vos Model/Ops.vos Model/EqHash.vos Model/PFM.vos Format/Json.vos Format/Glencoe.vos Format/Xml.vos Format/Uvl.vos Model/Metrics.vos Extract/Codec.vos
 Extract/Extract.vo Extract/Extract.glob Extract/Extract.v.beautified Extract/Extract.required_vo: Extract/Extract.v Base/Sexp.vo Extract/Driver.vo
 Extract/Extract.vio: Extract/Extract.v Base/Sexp.vio Extract/Driver.vio
 Extract/Extract.vos Extract/Extract.vok Extract/Extract.required_vos: Extract/Extract.v Base/Sexp.vos Extract/Driver.vos
